@@ -5,6 +5,7 @@ Theorems over the interpreter model (Anko.Model.Eval: runTryStmt, runStmtsStmt, 
 runDefers, callDeferredFunc, runVMFunc).
 -/
 import Anko.Proofs.EvalSig
+import Anko.Gen.StmtFlow
 
 set_option linter.unusedSectionVars false
 set_option linter.unusedSimpArgs false
@@ -192,5 +193,43 @@ theorem program_runs_defers (fuel : Nat) (p : Stmt) (s : St) (hd : (execStmt fue
     | cons a b => rfl
   simp only [hne, Bool.false_eq_true, if_false]
   split <;> rfl
+
+
+/-! ### try / catch / finally and the deferred calls in the source (regenerated: Gen/StmtFlow)
+
+runTryStmt: the try block runs in a scope of its own; an interruption leaves at once (catch does not see it); any other error is bound
+to the catch variable, cleared, and the catch block runs; an error of the catch block leaves at once (finally is skipped - the behaviour
+the model mirrors); otherwise finally runs; the scope is restored on every way out. runDefers: result and error of the body are kept,
+the deferred calls run last-registered first, each with a clear error register, an error they raise surfaces only when the body did not
+fail, the kept result is put back. -/
+/-- runTryStmt and runDefers -/
+def tryAndDeferFlow : List (String × String) := [
+  ("runTryStmt", "env := ri.env"),
+  ("runTryStmt", "ri.env = env.NewEnv()"),
+  ("runTryStmt", "ri.stmt = stmt.Try"),
+  ("runTryStmt", "ri.runSingleStmt()"),
+  ("runTryStmt", "E != nil && E == ErrInterrupt => ri.env = env"),
+  ("runTryStmt", "E != nil && E == ErrInterrupt => return"),
+  ("runTryStmt", "E != nil => ri.stmt = stmt.Catch"),
+  ("runTryStmt", "E != nil && stmt.Var != \"\" => ri.env.DefineValue(stmt.Var, ValueOf(E))"),
+  ("runTryStmt", "E != nil => E = nil"),
+  ("runTryStmt", "E != nil => ri.runSingleStmt()"),
+  ("runTryStmt", "E != nil && E != nil => ri.env = env"),
+  ("runTryStmt", "E != nil && E != nil => return"),
+  ("runTryStmt", "stmt.Finally != nil => ri.stmt = stmt.Finally"),
+  ("runTryStmt", "stmt.Finally != nil => ri.runSingleStmt()"),
+  ("runTryStmt", "ri.env = env"),
+  ("runDefers", "rv, err := unalias(R), E"),
+  ("runDefers", "defers := ri.defers"),
+  ("runDefers", "ri.defers = nil"),
+  ("runDefers", "for i := len(defers) - 1; i >= 0; i-- => E = nil"),
+  ("runDefers", "for i := len(defers) - 1; i >= 0; i-- => ri.callDeferredFunc(defers[i])"),
+  ("runDefers", "for i := len(defers) - 1; i >= 0; i-- && (E != nil && (err == nil || err == ErrReturn)) => err = E"),
+  ("runDefers", "R = rv"),
+  ("runDefers", "E = err")
+]
+
+theorem try_and_defers_move_control_as_modelled :
+    Gen.StmtFlow.leaves.filter (fun l => l.1 == "runTryStmt" || l.1 == "runDefers") = tryAndDeferFlow := by decide +kernel
 
 end Anko.C09
